@@ -142,7 +142,7 @@ class C14(Prop):
           'IDevice also with non-integer exponents, oracle only) x n in 1..8 plus 5 % from {12,16,24,25,31,48} (..60 thorough; storage / thermal n <= 4) x zero-width slots x '
           'scalar/vector parameters x in-bounds flow x price; non-trivial: n >= 2, a flow strictly inside a non-zero-width slot and a '
           'non-zero curve parameter')
-  sizes = {'quick': 1000, 'thorough': 20000}
+  sizes = {'quick': 1000, 'thorough': 12000}
   assumptions = ['oracle: second differences of cost (h = 1e-3, 2e-3; 2e-4 relative) and first differences of deriv (h = 1e-5, 8e-5; 2e-5 relative)',
                  'storage / thermal Hessians are numdifftools output: compared at 1e-4 relative, n <= 4, more than 1/8 flow unit away from kinks (measured: numdifftools is off by up to 30 % within 0.07); thermal diagonal only',
                  'T2 hess2.leaf (storage / thermal): numdifftools Hessian vs the analytic second derivative of the model (DK.C14b.sdevice_hess / tdevice_hess) under the same restrictions (1e-4 relative per entry, n <= 4, kink margin 1/8); thermal: only the diagonal is compared (the implementation zeroes the off-diagonals by construction, the analytic ones are not zero)',
